@@ -653,6 +653,101 @@ TARGETS.append(dict(
           "  if !P0f.validMtu pk.ip.isFragment pk.tcp.type pk.tcp.opts.mss then none else some (pk.tcp.opts.mss + P0f.mtuHdr pk.ip.version, recs.find? (fun r => r.1 == pk.tcp.opts.mss + P0f.mtuHdr pk.ip.version))\n",
 ))
 
+# ---------------------------------------------------------------------------------------------- C05 / C14: the option list of the impersonator
+def _impopt_pre(stmts):
+    """drop the hint extraction (Scapy's option tuples read into `mss_hint`, `window_scale_hint`, `timestamp_hint`: bound to the model's
+    Base fields, trusted glue) and give every iteration of the layout loop its own pair of drawn values"""
+    out = []
+    hint_names = {"original_options", "mss_hint", "window_scale_hint", "timestamp_hint"}
+    for st in stmts:
+        if isinstance(st, ast.FunctionDef) and st.name == "int_only":
+            continue
+        if isinstance(st, ast.Assign) and len(st.targets) == 1 and isinstance(st.targets[0], ast.Name) and st.targets[0].id in hint_names:
+            continue
+        if isinstance(st, ast.For) and ast.unparse(st.iter) == "signature.options.layout":
+            head = [ast.parse("rnd = rnd_head(rnd_stream)").body[0], ast.parse("rnd_stream = rnd_tail(rnd_stream)").body[0]]
+            st = ast.For(target=st.target, iter=st.iter, body=head + list(st.body), orelse=st.orelse)
+            out.append(ast.parse("rnd_stream = rnd_init()").body[0])
+            ast.fix_missing_locations(st)
+        out.append(st)
+    for st in out:
+        ast.fix_missing_locations(st)
+    return out
+
+
+def _nat_of(fn, node, env):
+    """an option value as the natural number Scapy will write (an int the code has just range-checked, or an int-or-None hint behind
+    its `is not None` test: None is totalised to 0)"""
+    e, t = fn.expr(node, env)
+    if t in ("Nat", "Lit"):
+        return e
+    if t == "Int":
+        return f"(Int.toNat {par(e)})"
+    if t == "Opt:Int":
+        return f"(Int.toNat (Option.getD {par(e)} 0))"
+    raise NotTranslatable(f"option value of type {t}")
+
+
+def _sopt_tuple(fn, node, env):
+    """Scapy's option tuples (name, value) as the model's SOpt"""
+    if len(node.elts) != 2:
+        return None
+    head, val = node.elts
+    if isinstance(head, ast.IfExp) and all(isinstance(x, ast.Constant) and x.value in ("NOP", "EOL") for x in (head.body, head.orelse)) \
+            and isinstance(val, ast.Constant) and val.value is None:
+        c = fn.cond(head.test, env)
+        k = {"NOP": "SOpt.nop", "EOL": "SOpt.eol"}
+        return (f"(if {c} then {k[head.body.value]} else {k[head.orelse.value]})", "Rec:SOpt")
+    if isinstance(head, ast.Constant) and isinstance(head.value, str):
+        name = head.value
+        is_none = isinstance(val, ast.Constant) and val.value is None
+        if name == "MSS":
+            return (f"(SOpt.mss {_nat_of(fn, val, env)})", "Rec:SOpt")
+        if name == "WScale":
+            return (f"(SOpt.ws {_nat_of(fn, val, env)})", "Rec:SOpt")
+        if name == "Timestamp" and isinstance(val, ast.Tuple) and len(val.elts) == 2:
+            return (f"(SOpt.ts {_nat_of(fn, val.elts[0], env)} {_nat_of(fn, val.elts[1], env)})", "Rec:SOpt")
+        if name == "NOP" and is_none:
+            return ("SOpt.nop", "Rec:SOpt")
+        if name == "EOL" and is_none:
+            return ("SOpt.eol", "Rec:SOpt")
+        if name == "SAckOK" and isinstance(val, ast.Constant) and val.value in ("", b""):
+            return ("SOpt.sackok", "Rec:SOpt")
+        if name == "SAck" and ast.unparse(val) in ("b'\\x00' * 8",):
+            return ("(SOpt.sack 8)", "Rec:SOpt")
+        raise NotTranslatable(f"option tuple {ast.unparse(node)}")
+    if isinstance(head, ast.Call) and ast.unparse(head.func) == "int" and len(head.args) == 1 and isinstance(val, ast.Constant) and val.value == b"":
+        return (f"(SOpt.raw {_nat_of(fn, head.args[0], env)} 0)", "Rec:SOpt")
+    return None
+
+
+IMPOPT_ENV = {
+    "tcp.flags": ("b.flags", "Flags"), "signature.quirks": ("s.quirks", "QSet"), "signature.options.layout": ("s.layout", "List:Nat"),
+    "signature.window.type": ("s.wtype", "Enum:WinType"), "signature.window.size": ("s.wsize", "Nat"), "signature.window.scale": opt_int("s.scale"),
+    "signature.options.mss": opt_int("s.mss"), "signature.options.eol_padding_length": ("s.eolPad", "Nat"),
+    "uptime": ("uptime", "Opt:Int"), "mss_hint": ("b.mssHint", "Opt:Int"), "window_scale_hint": ("b.wsHint", "Opt:Int"),
+    "timestamp_hint": ("(b.ts1Hint, b.ts2Hint)", "Tuple:Opt:Int,Opt:Int"),
+}
+TARGETS.append(dict(
+    module="pyp0f.impersonate.tcp", func="_impersonate_options", file="ImpersonateOptions", lean="impOptions", import_="P0f.Model.Impersonate",
+    pyparams=["tcp", "signature", "uptime"], params=[("s", "Sig"), ("b", "Base"), ("uptime", "Option Int"), ("c", "Choices")],
+    ret="List:Rec:SOpt", lean_ret="List SOpt", pre=_impopt_pre, env=IMPOPT_ENV, sort_carried=True, tuple_hook=_sopt_tuple,
+    lean_types={"Rec:SOpt": "SOpt"}, list_types={"options": "List:Rec:SOpt"}, opt_types={"impersonated_option": "Opt:Rec:SOpt"},
+    var_types={"tcp_type": "Flags", "min_mss": "Int", "max_mss": "Int", "max_window_scale": "Int", "max_ts": "Int"},
+    # every iteration of the layout loop draws from its own pair of values (the model's `Choices.opt`, one pair per layout position);
+    # which component a `random` call reads is decided by its position in the source
+    random_sites=[("rnd.1", "Nat"), ("rnd.1", "Nat"), ("rnd.1", "Nat"), ("rnd.1", "Nat"), ("rnd.2", "Nat")],
+    calls={"rnd_init": bound([], ("c.opt", "List:Tuple:Nat,Nat")),
+           "rnd_head": lambda fn, a, k, e: ("(List.headD " + par(fn.expr(a[0], e)[0]) + " (0, 0))", "Tuple:Nat,Nat"),
+           "rnd_tail": lambda fn, a, k, e: ("(List.tail " + par(fn.expr(a[0], e)[0]) + ")", "List:Tuple:Nat,Nat"),
+           # _align_options works on Scapy's tuples with bytes values: bound to the model's alignOptions
+           "_align_options": lambda fn, a, k, e: ("(alignOptions " + par(fn.coerce(a[0], e, "List:Rec:SOpt")) + ")", "List:Rec:SOpt")
+           if len(a) == 1 and not k else (_ for _ in ()).throw(NotTranslatable("_align_options call shape"))},
+    alias="def impOptions_loop0 (s : Sig) (b : Base) (uptime : Option Int) (c : Choices) (tcp_type : Nat) (ks : List Nat) (options : List SOpt) "
+          "(rnd_stream : List (Nat × Nat)) : List SOpt := P0f.alignOptions (options ++ P0f.impOptionsGo s b uptime ks rnd_stream)\n"
+          "def impOptions (s : Sig) (b : Base) (uptime : Option Int) (c : Choices) : List SOpt := P0f.impOptions s b uptime c\n",
+))
+
 # ---------------------------------------------------------------------------------------------- C09 / C10: signature text parsers
 RAISES_FIELD = {"FieldError": "none", "ValueError": "none"}
 TARGETS.append(dict(
